@@ -22,8 +22,8 @@ struct rnode {
     uint32_t k_off, k_len; /* key under which this node hangs in its parent object */
     int first, last, next, nchild;
 };
-#define RN_MAX 8192
-#define RS_MAX (1u << 16)
+#define RN_MAX 65536
+#define RS_MAX (1u << 18)
 static struct rnode rn[RN_MAX];
 static int rn_n;
 static uint8_t rs[RS_MAX];
